@@ -12,13 +12,13 @@ TECH = "bounded model checking of the compiled Rust code (Kani 0.68 -> CBMC 6.11
 
 CLAIMS = {
     "C01": {
-        "text": "Decides, for every value inside the stated bounds, the per-trigger predicates the router index evaluates: client IP in/not-in a CIDR range (all IPv4 and all IPv6 networks, prefix lengths and addresses, cross-family), date-time windows, time-of-day windows and weekday lists (start inclusive, end exclusive, each bound optional) against arithmetic references. Bounded model checking is the right level because the failing inputs are isolated boundary values (an instant equal to a window end, a /0 or /32 prefix) that sampling hits with negligible probability.",
+        "text": "Decides, for every value inside the stated bounds, the per-trigger predicates the router index evaluates: client IP in/not-in a CIDR range (all IPv4 and all IPv6 networks, prefix lengths and addresses, cross-family), date-time windows, time-of-day windows and weekday lists (start inclusive, end exclusive, each bound optional), and header conditions (defined / equals / starts / ends and their negations: case-insensitive name, any-of over duplicate header lines, all-of for the negated kinds) against arithmetic / bytewise references. Bounded model checking is the right level because the failing inputs are isolated boundary values (an instant equal to a window end, a /0 or /32 prefix) that sampling hits with negligible probability.",
         "note": "Claimed for the trigger predicates only; the bucket routing of the seven matcher layers (HashMap/BTreeMap/regex tree on the heap) is outside the claim (DESIGN C01). Instants 1970..2100 at 1 s resolution; weekday lists <= 2 entries. Trusted: Kani/CBMC, chrono's and cidr's code as compiled (they are encoded, not stubbed).",
         "design": "DESIGN.md §4 C01",
     },
     "C05": {
         "text": "Decides the response-status guards of the action (StatusCodeUpdate::get_status_code, LogOverride::get_log_override) against the reference of the property for all u16 status / fallback / response codes, up to two listed codes, and both include/exclude modes.",
-        "note": "Kernel level: the guards evaluated at use time. The fold over matched rules (sort, merge, reset, stop) is covered only where the harnesses of DESIGN C05-B are registered. Sampling (rand) is outside the claim.",
+        "note": "Kernels: the guards evaluated at use time, and Action::merge (an unconditional rule stays only as fallback of a conditional one; otherwise the later rule replaces) followed by the real get_status_code / should_log_request for all codes and flags (actions built through a cfg(kani) constructor hook). The sort + reset/stop loop of from_routes_rule over real Route<Rule> objects did not fit CBMC (measured: > 20 GB) and is outside the claim, as are sampling and header/body filters of the action.",
         "design": "DESIGN.md §4 C05",
     },
     "C07": {
@@ -28,7 +28,7 @@ CLAIMS = {
     },
     "C08": {
         "text": "Decides for ALL pairs of ASCII patterns up to the stated lengths that the prefix cut used by the tree is a common prefix, lies at group depth 0, is not directly after an unescaped backslash, is maximal among such cuts and is symmetric; and that get_prefix_with_char_size returns exactly the first k chars. This is the only place where pattern contents matter for the soundness of node regexes.",
-        "note": "Prefix kernel for pattern pairs up to 6x6 ASCII chars. The tree plumbing (insert/split/remove/collapse/retain/cache vs linear scan) is outside the claim unless the c08_tree harnesses are registered (DESIGN C08).",
+        "note": "Prefix kernel for pattern pairs up to 6x6 ASCII chars (firm). Tree plumbing: insert/split/descend + find/len/is_empty vs an independent linear-scan matcher for all ASCII haystacks of length 2 on 2-pattern trees (case-sensitive and case-insensitive), and retain-to-empty / remove + re-insertion on 1-pattern trees; regex engine and Leaf map are the cfg(kani) models (validated natively). Removal/retain/collapse on trees with inner nodes, get(), 3-pattern trees and cache(None) were measured out of memory (16-24 GB) and are outside the claim (DESIGN C08, §6).",
         "design": "DESIGN.md §4 C08",
     },
     "C11": {
@@ -42,6 +42,32 @@ CLAIMS = {
         "design": "DESIGN.md §4 C18",
     },
 }
+
+CLAIMS.update({
+    "C03": {
+        "text": "Decides for one text filter stage (the real TextFilterBodyAction::{new, filter, end}), for every action, all byte contents and every partition of a 2-byte body into three consecutive chunks (empty chunks included, plus trailing empty chunks and the empty body with 0/1/2 empty chunks), that the concatenated chunk outputs followed by the end-of-stream output equal the single-chunk result and the reference (append: b++c, prepend: c++b, replace: c). The failing inputs of this family are chunk patterns (an empty first chunk) that sampling rarely produces.",
+        "note": "One text stage only. The chain plumbing of FilterBodyAction (do_filter/do_end/in_error) did not fit CBMC (measured: 2.4 M symex steps and out of memory at 16 GB for one stage and one partition), and the HTML stage (tokenizer) is out of reach: both are outside the claim, as are compressed bodies and bodies longer than 2 bytes (DESIGN C03).",
+        "design": "DESIGN.md §4 C03, §6",
+    },
+    "C04": {
+        "text": "Same harnesses as C03, read as the no-loss/no-duplication statement for insert-only text filters: for append/prepend the output with the inserted byte removed at its reference position equals the input, and replace emits the content exactly once, for all contents and all partitions within the bound.",
+        "note": "One text stage only; HTML buffering, the pass-through gating (content type / unsupported encoding) and the error fallback are outside the claim (DESIGN C04).",
+        "design": "DESIGN.md §4 C04, §6",
+    },
+    "C13": {
+        "text": "Decides FilterHeaderAction::{new, filter} (the five HeaderAction implementations and create_header_action) against a reference fold for all 1-byte ASCII header values and filter values, over concrete name configurations (duplicates in mixed case, one match, no match, different filter names), for every single operation and eleven two-operation sequences including unknown operations, on 2 and 3 input headers: exact output list (names, values, order).",
+        "note": "Names are concrete per configuration (symbolic names make every result Vec a heap object of symbolic length: out of memory at 16 GB), values symbolic; str::to_lowercase is stubbed by an ASCII length-preserving model (names are ASCII). Unit traces, more than 2 filters or 3 headers, longer names/values are outside the claim.",
+        "design": "DESIGN.md §4 C13, §6",
+    },
+})
+
+CLAIMS.update({
+    "C12": {
+        "text": "Decides at tree level that warming the cache changes no lookup result: after cache(limit, Some(level)) on a 2-pattern tree, and after a full cache followed by a further insertion into a case-insensitive tree (a split of a cached item), find() still equals the linear scan for every ASCII haystack of the bound; cached_len <= limit and the returned budget == limit - newly cached.",
+        "note": "Tree level only, 2 concrete patterns, model regex engine (both LazyRegex branches - compiled and built on the fly - run over the same model, so what is decided is the repository's own caching logic). cache(limit, None), level-1 caching, Router::cache, captures and traces are outside the claim (the first two measured out of memory at 24 GB).",
+        "design": "DESIGN.md §4 C12, §6",
+    },
+})
 
 NOT_APPLICABLE = {
     "C02": "every observable goes through seven nested std HashMap/BTreeMap layers and the heap-allocated regex tree; measured: CBMC does not finish even a 2-pattern tree lookup (DESIGN §2, C02)",
